@@ -8,25 +8,26 @@ CONSTANT GenDepth
 VARIABLE hist
 
 GInit ==
-    /\ ntxn = 0 /\ nreload = 0 /\ nrestart = 0 /\ nscrape = 0 /\ ncollect = 0 /\ verdict = "ok" /\ devs = {}
+    /\ ntxn = 0 /\ nreload = 0 /\ nrestart = 0 /\ nscrape = 0 /\ ncollect = 0 /\ ntick = 0 /\ verdict = "ok" /\ devs = {}
     /\ \E c \in Files, fs \in FlowSets :
          /\ g = IStart(IReset(Known), StartEv(c, fs))
          /\ h = PStart(PReset(Known), StartEv(c, fs))
-         /\ hist = <<[ev |-> "start", c |-> c, fs |-> fs]>>
+         /\ hist = <<[ev |-> "start", c |-> c, fs |-> fs, qs |-> QuotasOf(fs)]>>
 
 AnyScrape ==
     /\ hist[Len(hist)].ev # "scrape"
     /\ g' = IAfterScrape(g)
     /\ verdict' = Judge(h, g')
-    /\ UNCHANGED <<h, ntxn, nreload, nrestart, nscrape, ncollect, devs>>
+    /\ UNCHANGED <<h, ntxn, nreload, nrestart, nscrape, ncollect, ntick, devs>>
 
 GNext ==
     \/ \E t \in Letters : Txn(t) /\ hist' = Append(hist, [ev |-> "txn", t |-> t])
     \/ \E n \in 1..MaxFlush : Flush(n) /\ hist' = Append(hist, [ev |-> "flush", n |-> n])
     \/ AnyScrape /\ hist' = Append(hist, [ev |-> "scrape"])
     \/ Collect /\ hist' = Append(hist, [ev |-> "collect"])
-    \/ \E c \in Files, fs \in FlowSets : Reload(c, fs) /\ hist' = Append(hist, [ev |-> "reload", c |-> c, fs |-> fs])
-    \/ \E c \in Files, fs \in FlowSets : Restart(c, fs) /\ hist' = Append(hist, [ev |-> "start", c |-> c, fs |-> fs])
+    \/ Tick /\ hist' = Append(hist, [ev |-> "tick", d |-> 11])
+    \/ \E c \in Files, fs \in FlowSets : Reload(c, fs) /\ hist' = Append(hist, [ev |-> "reload", c |-> c, fs |-> fs, qs |-> QuotasOf(fs)])
+    \/ \E c \in Files, fs \in FlowSets : Restart(c, fs) /\ hist' = Append(hist, [ev |-> "start", c |-> c, fs |-> fs, qs |-> QuotasOf(fs)])
 
 GSpec == GInit /\ [][GNext]_<<vars, hist>>
 Emit == (Len(hist) = GenDepth) => PrintT(<<"VH", ToJson(hist)>>)
